@@ -668,6 +668,9 @@ func (r *Runtime) arrayproto_includes(call FunctionCall) Value {
 
 	if arr := r.checkStdArrayObjLen(o, length); arr != nil {
 		for _, val := range arr.values[n:] {
+			if val == _negativeZero {
+				val = _positiveZero // SameValueZero
+			}
 			if searchElement.SameAs(val) {
 				return valueTrue
 			}
@@ -678,6 +681,9 @@ func (r *Runtime) arrayproto_includes(call FunctionCall) Value {
 	for ; n < length; n++ {
 		idx := valueInt(n)
 		val := nilSafe(o.self.getIdx(idx, nil))
+		if val == _negativeZero {
+			val = _positiveZero // SameValueZero
+		}
 		if searchElement.SameAs(val) {
 			return valueTrue
 		}
